@@ -302,6 +302,9 @@ FUNCTIONS['LOOKUP'] = wrap_ufunc(
 
 
 def args_parser_hlookup(val, vec, index, match_type=1, transpose=False):
+    err = get_error(index, match_type)
+    if err:  # An error in the index or in range_lookup is the result.
+        raise FoundError(err=err)
     index = int(_text2num(np.ravel(index)[0]) - 1)
     vec = np.matrix(vec)
     if transpose:
